@@ -163,6 +163,11 @@ pub fn read_dimacs(spec: &Spec, b: &[u8]) -> Reading {
                     must_reject = must_reject.or(Some(format!("literal {w} exceeds every supported integer")));
                     c.1.push(i64::MAX);
                 }
+                // made of sign and digit characters only, yet not a decimal number ("-", "--1",
+                // "1-2", "+1"): nothing else it could be, so no number may be returned for it
+                None if w.bytes().all(|b| b == b'-' || b == b'+' || b.is_ascii_digit()) => {
+                    must_reject = must_reject.or(Some(format!("{w:?} is not a number")));
+                }
                 None => return Reading::Undecided(format!("non-numeric word {w:?}")),
             }
         }
